@@ -1,7 +1,7 @@
 ------------------------------ MODULE C19Trace ------------------------------
 (* Replay of the ValidityMC fault enumeration on the real constructors, and classification of the outcome of every
    public method of valid objects called with in-range and boundary arguments (property C19). *)
-EXTENDS Validity, Json, IOUtils, TLC
+EXTENDS Validity, ParentAlg, Json, IOUtils, TLC
 Trace == ndJsonDeserialize(IOEnv.TRACE_FILE)
 (* ["ctor", class, kind, args, outcome] *)
 VCtor(ev) ==
@@ -19,7 +19,28 @@ VCall(ev) ==
   ELSE "call:internal-error"
 (* ["result", kind, method, loc] : every location returned by a public method is well-formed *)
 VResult(ev) == IF WellFormed(ev[4], -1) THEN "ok" ELSE "call:ill-formed-result"
-Verdict(ev) == CASE ev[1] = "ctor" -> VCtor(ev) [] ev[1] = "call" -> VCall(ev) [] ev[1] = "result" -> VResult(ev)
+(* ["parent", args = <<id, stype, strand, loc, seq, par>>, ctorOutcome, strip, resets = <<l2, outcome>>...,
+    ancestors = <<type, inclSelf, firstAncestorOutcome, hasAncestorOutcome>>...] : one point of ParentAlg!ArgSpace performed on
+   the real Parent class.  Outcomes: <<"x", exception>> | <<"v", projection>>; refused input must be refused with the
+   documented exception of the rule that fires, accepted input must have exactly the derived attributes. *)
+SameOutcome(o, want) == IF want[1] = "x" THEN o[1] = "x" /\ o[2] = want[2] ELSE o[1] = "v" /\ o[2] = want[2]
+VParent(ev) ==
+  LET a == ev[2] want == Built(a) o == ev[3] IN
+  IF want[1] = "x" THEN
+     (IF o[1] = "v" THEN "parent:built-from-inconsistent-arguments"
+      ELSE IF InternalExc(o) THEN "parent:internal-error"
+      ELSE IF o[2] # want[2] THEN "parent:wrong-exception" ELSE "ok")
+  ELSE IF o[1] # "v" THEN "parent:refused-consistent-arguments"
+  ELSE IF o[2] # want[2] THEN "parent:derived-attributes"
+  ELSE IF ~SameOutcome(ev[4], Strip(a)) THEN "parent:strip-location-info"
+  ELSE IF \E k \in DOMAIN ev[5] : ~SameOutcome(ev[5][k][2], Reset(a, ev[5][k][1])) THEN "parent:reset-location"
+  ELSE IF \E k \in DOMAIN ev[6] : ~SameOutcome(ev[6][k][3], FirstAncestor(a, ev[6][k][1], ev[6][k][2])) THEN "parent:first-ancestor-of-type"
+  ELSE IF \E k \in DOMAIN ev[6] : ~(ev[6][k][4][1] = "v" /\ ev[6][k][4][2] = HasAncestor(a, ev[6][k][1], ev[6][k][2])) THEN "parent:has-ancestor-of-type"
+  ELSE "ok"
+(* ["parentcert", n] : the replay covered the whole argument space *)
+VParentCert(ev) == IF ev[2] = Cardinality(ArgSpace) THEN "ok" ELSE "parent:argument-space-incomplete"
+
+Verdict(ev) == CASE ev[1] = "parent" -> VParent(ev) [] ev[1] = "parentcert" -> VParentCert(ev) [] ev[1] = "ctor" -> VCtor(ev) [] ev[1] = "call" -> VCall(ev) [] ev[1] = "result" -> VResult(ev)
                  [] OTHER -> "unknown-op"
 Bad == {i \in DOMAIN Trace : Verdict(Trace[i]) # "ok"}
 ASSUME \A i \in Bad : PrintT(<<"BAD", i, Verdict(Trace[i])>>)
